@@ -123,7 +123,30 @@ impl Message {
                 let services = services.unwrap();
                 Ok(Message::Services(services))
             }
-            10 => Ok(Message::GhostChain(GhostChainSync::deserialize(buffer))),
+            10 => {
+                if buffer.len() < 36 {
+                    warn!(
+                        "buffer size : {:?} is not valid for type : {:?}",
+                        buffer.len(),
+                        message_type
+                    );
+                    return Err(Error::from(ErrorKind::InvalidData));
+                }
+                let count = u32::from_be_bytes(buffer[32..36].try_into().unwrap()) as usize;
+                let expected_len = count
+                    .checked_mul(82)
+                    .and_then(|len| len.checked_add(36))
+                    .ok_or(Error::from(ErrorKind::InvalidData))?;
+                if buffer.len() < expected_len {
+                    warn!(
+                        "buffer size : {:?} is not valid for a ghost chain with {:?} entries",
+                        buffer.len(),
+                        count
+                    );
+                    return Err(Error::from(ErrorKind::InvalidData));
+                }
+                Ok(Message::GhostChain(GhostChainSync::deserialize(buffer)))
+            }
             11 => {
                 if buffer.len() != 72 {
                     warn!(
